@@ -12,6 +12,7 @@ import (
 	"path"
 	"path/filepath"
 	"strings"
+	"syscall"
 
 	"github.com/emersion/go-webdav/internal"
 )
@@ -66,13 +67,21 @@ func fileInfoFromOS(p string, fi os.FileInfo) *FileInfo {
 }
 
 func errFromOS(err error) error {
+	// Errors which already carry an HTTP status are left alone
+	var httpErr *internal.HTTPError
+	if errors.As(err, &httpErr) {
+		return err
+	}
+
 	// Remove path from path errors so it's not returned to the user
 	var perr *fs.PathError
 	if errors.As(err, &perr) {
 		err = fmt.Errorf("%s: %w", perr.Op, perr.Err)
 	}
 
-	if errors.Is(err, fs.ErrNotExist) {
+	// ENOTDIR is reported for a path below a regular file: nothing is mapped
+	// at such a path
+	if errors.Is(err, fs.ErrNotExist) || errors.Is(err, syscall.ENOTDIR) {
 		return NewHTTPError(http.StatusNotFound, err)
 	} else if errors.Is(err, fs.ErrPermission) {
 		return NewHTTPError(http.StatusForbidden, err)
@@ -159,8 +168,15 @@ func (fs LocalFileSystem) Create(ctx context.Context, name string, body io.ReadC
 		return nil, false, err
 	}
 
+	if fi != nil && fi.IsDir {
+		return nil, false, NewHTTPError(http.StatusMethodNotAllowed, fmt.Errorf("webdav: cannot write to a collection"))
+	}
+
 	wc, err := os.Create(p)
-	if err != nil {
+	if internal.IsNotFound(errFromOS(err)) {
+		// The target itself is about to be created: its parent is missing
+		return nil, false, NewHTTPError(http.StatusConflict, errFromOS(err))
+	} else if err != nil {
 		return nil, false, errFromOS(err)
 	}
 	defer wc.Close()
@@ -252,6 +268,19 @@ func checkCopyMovePaths(srcPath, dstPath string) error {
 	return nil
 }
 
+// checkParentExists returns a "409 Conflict" error if the parent of a resource
+// which is about to be created doesn't exist.
+func checkParentExists(p string) error {
+	if _, err := os.Stat(filepath.Dir(p)); err != nil {
+		err = errFromOS(err)
+		if internal.IsNotFound(err) {
+			return NewHTTPError(http.StatusConflict, err)
+		}
+		return err
+	}
+	return nil
+}
+
 func (fs LocalFileSystem) Copy(ctx context.Context, src, dst string, options *CopyOptions) (created bool, err error) {
 	srcPath, err := fs.localPath(src)
 	if err != nil {
@@ -278,6 +307,9 @@ func (fs LocalFileSystem) Copy(ctx context.Context, src, dst string, options *Co
 	if _, err := os.Stat(dstPath); err != nil {
 		if !os.IsNotExist(err) {
 			return false, errFromOS(err)
+		}
+		if err := checkParentExists(dstPath); err != nil {
+			return false, err
 		}
 		created = true
 	} else {
@@ -344,6 +376,9 @@ func (fs LocalFileSystem) Move(ctx context.Context, src, dst string, options *Mo
 	if _, err := os.Stat(dstPath); err != nil {
 		if !os.IsNotExist(err) {
 			return false, errFromOS(err)
+		}
+		if err := checkParentExists(dstPath); err != nil {
+			return false, err
 		}
 		created = true
 	} else {
